@@ -517,6 +517,8 @@ func (c *cluster) step(st string) bool {
 		ok = c.stepClient(f)
 	case "cancel":
 		ok = c.stepCancel(atoi(f[1]))
+	case "retr", "redeliver-truncate":
+		ok = c.stepRedeliverTruncate(atoi(f[1]))
 	case "crash":
 		ok = c.stepCrash(atoi(f[1]))
 	case "restart":
@@ -1212,6 +1214,9 @@ func (c *cluster) stepTruncate(l, f int, fail bool) bool {
 	}
 	req := g.req.(*proto.TruncateRequest)
 	n := c.node(f)
+	// every Truncate request a leader issues is kept: the network may deliver a copy of it again later
+	c.truncs[f] = append(c.truncs[f], sentTruncate{from: l, req: &proto.TruncateRequest{Namespace: req.Namespace, Shard: req.Shard, Term: req.Term,
+		HeadEntryId: &proto.EntryId{Term: req.HeadEntryId.Term, Offset: req.HeadEntryId.Offset}}})
 	if fail || !c.reachable(l, f) {
 		c.event("truncate %d>%d: unreachable", l, f)
 		c.release(g, nil, errUnavailable)
@@ -1242,6 +1247,67 @@ func (c *cluster) stepTruncate(l, f int, fail bool) bool {
 	c.mon.onTruncate(call, l, f, req, res)
 	c.mon.onRolledBack(l, f, req.Term, logBefore, c.shadowLog(f))
 	c.release(g, res, nil)
+	return true
+}
+
+// redeliverable: the most recent Truncate request issued to the node in the term the node is in now.
+func (c *cluster) redeliverable(f int) *sentTruncate {
+	n := c.node(f)
+	if n == nil {
+		return nil
+	}
+	c.mu.Lock()
+	up, term := n.up, n.term
+	c.mu.Unlock()
+	if !up || c.busy(f) {
+		return nil
+	}
+	l := c.truncs[f]
+	for i := len(l) - 1; i >= 0; i-- {
+		if l[i].req.Term == term {
+			return &l[i]
+		}
+	}
+	return nil
+}
+
+// stepRedeliverTruncate: a copy of an earlier Truncate request of the follower's current term reaches it again (a
+// stalled first attempt, a retransmission), at any later point: also after the follower has started following and
+// acknowledged entries.  A follower that is no longer FENCED must refuse it (ErrInvalidStatus).
+func (c *cluster) stepRedeliverTruncate(f int) bool {
+	st := c.redeliverable(f)
+	if st == nil {
+		return false
+	}
+	n := c.node(f)
+	_, before := c.projection(n)
+	logBefore := c.shadowLog(f)
+	req := &proto.TruncateRequest{Namespace: st.req.Namespace, Shard: st.req.Shard, Term: st.req.Term,
+		HeadEntryId: &proto.EntryId{Term: st.req.HeadEntryId.Term, Offset: st.req.HeadEntryId.Offset}}
+	res, err := n.rpcTruncate(req)
+	if err != nil {
+		c.event("redelivered truncate %d>%d to (%d,%d) term=%d: refused (%v), status %v", st.from, f, req.HeadEntryId.Term, req.HeadEntryId.Offset, req.Term, err, before)
+		c.stats["truncate-redelivered:refused"]++
+		return true
+	}
+	logAfter := c.shadowLog(f)
+	c.mu.Lock()
+	n.status = proto.ServingStatus_FOLLOWER
+	c.mu.Unlock()
+	c.event("redelivered truncate %d>%d to (%d,%d) term=%d: ACCEPTED in status %v, head now %d, log=%s", st.from, f, req.HeadEntryId.Term,
+		req.HeadEntryId.Offset, req.Term, before, res.HeadEntryId.Offset, logTok(logAfter))
+	c.stats["truncate-redelivered:accepted"]++
+	if before == proto.ServingStatus_FOLLOWER {
+		c.violate("truncate:accepted-while-following", fmt.Sprintf(
+			"node %d was FOLLOWER in term %d with log %s when a copy of the Truncate request (entry id (%d,%d)) that leader %d had issued earlier in that term was delivered again: it accepted it and now holds %s (a node that has started following must refuse Truncate: its log above the requested entry may be acknowledged and committed)",
+			f, req.Term, logTok(logBefore), req.HeadEntryId.Term, req.HeadEntryId.Offset, st.from, logTok(logAfter)))
+	} else {
+		// a FENCED node takes the duplicate as it would have taken the original: legal, but the model has no action for
+		// a truncation that is not part of an Attach
+		c.stats["model-gap:duplicate-truncate-on-fenced-node"]++
+		c.skipModel("a duplicate of a Truncate request was accepted by a node that was (again) FENCED in that term")
+	}
+	c.mon.onRolledBack(st.from, f, req.Term, logBefore, logAfter)
 	return true
 }
 
